@@ -1095,7 +1095,7 @@ Qed.
 Lemma schemas_wmis mis : forall s, w_schemas (wmis o mis s) = w_schemas s.
 Proof. induction mis as [|mi r IH]; intro s; [reflexivity|]. cbn [wmis fold_left]. etransitivity; [apply IH|reflexivity]. Qed.
 Lemma schemas_flushed s : w_schemas (flushed o compress s) = w_schemas s.
-Proof. unfold flushed, chunk_written. cbv zeta. unfold set. cbn. rewrite schemas_wmis. reflexivity. Qed.
+Proof. unfold flushed, chunk_written. cbv zeta. wsimpl. rewrite schemas_wmis. reflexivity. Qed.
 Lemma schemas_stats_time t s : w_schemas (stats_time t s) = w_schemas s.
 Proof.
   unfold stats_time. destruct (w_st_end s <? t);
@@ -1205,9 +1205,9 @@ Proof.
   pose proof (summary_pass s1 Hi1) as HS.
   destruct (write_summary o None s1) as [[s2 e2] offs]. unfold serr in HS. cbn [fst snd] in HS. subst e2.
   match goal with |- context [if ?c then write_all ?f offs s2 else _] =>
-    assert (HW : snd (if c then write_all f offs s2 else (s2, None)) = None)
-      by (destruct c; [apply write_all_dst|reflexivity]);
-    destruct (if c then write_all f offs s2 else (s2, None)) as [s3 e3] end.
+    set (X := if c then write_all f offs s2 else (s2, None));
+    assert (HW : snd X = None) by (subst X; destruct c; [apply write_all_dst|reflexivity]) end.
+  destruct X as [s3 e3].
   cbn [snd] in HW. subst e3. cbn [bindw]. rewrite write_footer_eq. cbn [bindw].
   rewrite dst_write_none. cbn [bindw]. reflexivity.
 Qed.
@@ -1253,5 +1253,195 @@ Proof.
   intro H. destruct (db3_to_mcap_accepted o lib compress topics sch msgs H) as [_ Hb].
   apply calls_ok_exec in Hb as (w0 & EN & Hp). apply calls_ok_exec. exists w0. split; [exact EN|].
   unfold db3_expected_calls. apply calls_pass_app. split; [exact Hp|]. cbn [calls_pass]. split; [|exact I].
-  apply close_pass. apply exec_inv; [apply body_data_calls|exact Hp|]. apply new_writer_inv, EN.
+  apply close_pass. apply exec_inv; [apply body_data_calls|exact Hp|]. exact (new_writer_inv _ _ EN).
 Qed.
+
+(* ====================================================================================== *)
+(* 7. content of the written file                                                          *)
+(* ====================================================================================== *)
+
+Lemma expected_records_msgs o lib : forall cs,
+  expected_records o lib (filter is_message cs) = map (fun m => CR OpMessage (enc_message m)) (calls_msgs cs).
+Proof.
+  induction cs as [|c r IH]; [reflexivity|].
+  destruct c; cbn [filter is_message calls_msgs flat_map call_msg app]; try exact IH.
+  cbn [expected_records flat_map call_rec app map]. f_equal. exact IH.
+Qed.
+Lemma expected_records_schemas o lib : forall cs,
+  expected_records o lib (filter is_schema_call cs) = map (fun s => CR OpSchema (enc_schema s)) (calls_schemas cs).
+Proof.
+  induction cs as [|c r IH]; [reflexivity|].
+  destruct c; cbn [filter is_schema_call calls_schemas flat_map call_schema app]; try exact IH.
+  cbn [expected_records flat_map call_rec app map]. f_equal. exact IH.
+Qed.
+Lemma expected_records_channels o lib : forall cs,
+  expected_records o lib (filter is_channel_call cs) = map (fun c => CR OpChannel (enc_channel c)) (calls_channels cs).
+Proof.
+  induction cs as [|c r IH]; [reflexivity|].
+  destruct c; cbn [filter is_channel_call calls_channels flat_map call_channel app]; try exact IH.
+  cbn [expected_records flat_map call_rec app map]. f_equal. exact IH.
+Qed.
+
+Lemma calls_msgs_body topics sch msgs : calls_msgs (db3_body_calls topics sch msgs) = db3_messages topics msgs.
+Proof.
+  rewrite <- (expected_messages topics sch msgs). unfold db3_expected_calls. rewrite calls_msgs_app.
+  cbn [calls_msgs flat_map call_msg app]. rewrite app_nil_r. reflexivity.
+Qed.
+Lemma calls_schemas_body topics sch msgs : calls_schemas (db3_body_calls topics sch msgs) = db3_schemas topics sch.
+Proof.
+  rewrite <- (expected_schemas topics sch msgs). unfold db3_expected_calls. rewrite calls_schemas_app.
+  cbn [calls_schemas flat_map call_schema app]. rewrite app_nil_r. reflexivity.
+Qed.
+Lemma calls_channels_body topics sch msgs : calls_channels (db3_body_calls topics sch msgs) = db3_channels topics.
+Proof.
+  rewrite <- (expected_channels topics sch msgs). unfold db3_expected_calls. rewrite calls_channels_app.
+  cbn [calls_channels flat_map call_channel app]. rewrite app_nil_r. reflexivity.
+Qed.
+
+Lemma body_no_close topics sch msgs : Forall (fun c => c <> CClose) (db3_body_calls topics sch msgs).
+Proof.
+  eapply Forall_impl; [|apply body_data_calls]. intros c Hc ->. exact Hc.
+Qed.
+
+Lemma body_header_calls topics sch msgs :
+  filter is_header_call (db3_body_calls topics sch msgs) = [CHeader ros2_header].
+Proof.
+  rewrite db3_body_calls_eq. cbn [filter is_header_call]. f_equal. rewrite filter_app.
+  assert (A : forall ts i, filter is_header_call (topics_calls sch i ts) = []).
+  { induction ts as [|t r IH]; intro i; [reflexivity|]. rewrite topics_calls_cons. cbn [filter is_header_call]. apply IH. }
+  rewrite A. cbn [app]. induction (number_rows [] (kept_rows topics msgs)) as [|x r IH]; [reflexivity|exact IH].
+Qed.
+
+Lemma C06_hyps_body o lib compress topics sch msgs :
+  db3_accepts o topics (Some sch) msgs = true -> C06_hyps o lib compress (db3_body_calls topics sch msgs).
+Proof.
+  intro H. pose proof (db3_expected_calls_ok o lib compress topics sch msgs H) as [H1 H2].
+  split; [exact H1|]. split; [exact H2|apply body_no_close].
+Qed.
+
+(* Theorem 4.  unz: any function undoing the compressor oracle; call_small: every record that can go through a chunk
+   is shorter than 2^64 bytes (true of any Go slice).  The bytes written are the rendering of the ghost trace; its
+   data section (chunks replaced by the records of their uncompressed content) holds, per class and in order:
+   the header with profile "ros2"; one schema per message topic; one channel per message topic; one message per
+   converted row, in the order of the rows; and schemas, channels and messages in their mutual call order. *)
+Theorem db3_file_content o lib compress unz topics sch msgs :
+  db3_accepts o topics (Some sch) msgs = true ->
+  (forall n plain, unz (o_comp o) (compress n plain) = plain) ->
+  Forall call_small (db3_body_calls topics sch msgs) ->
+  let R := db3_to_mcap o lib compress topics (Some sch) msgs in
+  let recs := data_records unz (rev (w_trace (dr_final R))) in
+  dr_err R = None /\
+  concat (dr_writes R) = render (rev (w_trace (dr_final R))) /\
+  filter (is_op OpHeader) recs
+    = [CR OpHeader (enc_header {| h_profile := s_ros2; h_library := header_library o lib ros2_header |})] /\
+  filter (is_op OpSchema) recs = map (fun s => CR OpSchema (enc_schema s)) (db3_schemas topics sch) /\
+  filter (is_op OpChannel) recs = map (fun c => CR OpChannel (enc_channel c)) (db3_channels topics) /\
+  filter (is_op OpMessage) recs = map (fun m => CR OpMessage (enc_message m)) (db3_messages topics msgs) /\
+  filter is_auto recs = expected_records o lib (filter call_auto (db3_body_calls topics sch msgs)).
+Proof.
+  intros Hacc Hunz Hsmall R recs. subst recs R.
+  pose proof (C06_hyps_body o lib compress topics sch msgs Hacc) as HC.
+  destruct (db3_to_mcap_accepted o lib compress topics sch msgs Hacc) as [-> _]. cbn [dr_err dr_writes dr_final].
+  unfold db3_expected_calls.
+  pose proof (C01_file_is_trace_thm o lib compress _ HC) as HF. cbv zeta in HF. unfold file_of in HF.
+  destruct (C01_trace_classes_thm o lib compress unz _ HC Hunz Hsmall) as (A & _ & _ & D & _ & M & S & C).
+  split; [reflexivity|]. split; [exact HF|].
+  split; [rewrite D, body_header_calls; reflexivity|].
+  split; [rewrite S, expected_records_schemas, calls_schemas_body; reflexivity|].
+  split; [rewrite C, expected_records_channels, calls_channels_body; reflexivity|].
+  split; [rewrite M, expected_records_msgs, calls_msgs_body; reflexivity|exact A].
+Qed.
+
+(* ====================================================================================== *)
+(* 8. examples                                                                             *)
+(* ====================================================================================== *)
+
+Definition bs (l : list N) : bytes := map byte_of_N l.
+Definition ex_type_a : bytes := bs [112;107;103;47;109;115;103;47;65].          (* "pkg/msg/A" *)
+Definition ex_type_b : bytes := bs [112;107;103;47;109;115;103;47;66].          (* "pkg/msg/B" *)
+Definition ex_type_s : bytes := bs [112;107;103;47;115;114;118;47;83].          (* "pkg/srv/S": not a message type *)
+Definition ex_cdr : bytes := bs [99;100;114].
+(* three topics, the second one a service topic *)
+Definition ex_topics : list topic_row :=
+  [ {| t_id := 1; t_name := bs [47;97]; t_type := ex_type_a; t_fmt := ex_cdr; t_qos := Some (bs [113;111;115]) |};
+    {| t_id := 2; t_name := bs [47;115;114;118]; t_type := ex_type_s; t_fmt := ex_cdr; t_qos := None |};
+    {| t_id := 3; t_name := bs [47;98]; t_type := ex_type_b; t_fmt := ex_cdr; t_qos := None |} ].
+(* the definitions of the two message types *)
+Definition ex_sch : list (bytes * bytes) :=
+  [ (ex_type_a, bs [105;110;116;51;50;32;120]); (ex_type_b, bs [115;116;114;105;110;103;32;115]) ].
+(* five rows of message topics (two of them with the same timestamp) and one row of the service topic *)
+Definition ex_msgs : list msg_row :=
+  [ {| mr_topic := 1; mr_ts := 10; mr_data := bs [1;2;3] |};
+    {| mr_topic := 2; mr_ts := 15; mr_data := bs [9;9] |};
+    {| mr_topic := 3; mr_ts := 20; mr_data := bs [4] |};
+    {| mr_topic := 1; mr_ts := 20; mr_data := bs [] |};
+    {| mr_topic := 3; mr_ts := 30; mr_data := bs [5;6] |};
+    {| mr_topic := 1; mr_ts := 31; mr_data := bs [7] |} ].
+(* unchunked / one chunk of the default size / a new chunk after every 60 bytes *)
+Definition ex_opts (chunked : bool) (chunksize : Z) : wopts :=
+  {| o_crc := true; o_chunked := chunked; o_chunksize := chunksize; o_comp := []; o_custom := false; o_skip_mi := false;
+     o_skip_stats := false; o_skip_rsh := false; o_skip_rch := false; o_skip_ai := false; o_skip_mdi := false;
+     o_skip_ci := false; o_skip_so := false; o_override_lib := false; o_skip_magic := false |}.
+Definition ex_lib : bytes := bs [109;99;97;112].
+Definition ex_compress : nat -> bytes -> bytes := fun _ b => b.
+Definition ex_unz : bytes -> bytes -> bytes := fun _ b => b.
+
+Definition call_code (c : wcall) : N :=
+  match c with
+  | CHeader _ => 1 | CSchema s => 100 + s_id s | CChannel c => 200 + 10 * c_id c + c_schema c
+  | CMessage m => 1000 + 100 * m_chan m + m_seq m | CClose => 9 | _ => 0
+  end.
+
+Lemma ex_accepted : forall chunked cs, db3_accepts (ex_opts chunked cs) ex_topics (Some ex_sch) ex_msgs = true.
+Proof.
+  intros chunked cs. unfold db3_accepts.
+  assert (E : new_ok (ex_opts chunked cs) = true).
+  { unfold new_ok, effective_opts. cbn [ex_opts o_chunked o_chunksize].
+    destruct chunked; cbn [andb]; [destruct (cs =? 0)%Z|]; reflexivity. }
+  rewrite E. reflexivity.
+Qed.
+
+Lemma ex_call_small : Forall call_small (db3_body_calls ex_topics ex_sch ex_msgs).
+Proof. repeat constructor. Qed.
+
+(* two topics of the same type: the converter writes the schema twice (ids 1 and 2) *)
+Definition ex_topics_same_type : list topic_row :=
+  [ {| t_id := 5; t_name := bs [47;97]; t_type := ex_type_a; t_fmt := ex_cdr; t_qos := None |};
+    {| t_id := 6; t_name := bs [47;98]; t_type := ex_type_a; t_fmt := ex_cdr; t_qos := None |} ].
+
+(* the acceptance predicate, spelled out *)
+Lemma u16_ok_iff z : u16_ok z = true <-> (0 <= z <= 65535)%Z.
+Proof. unfold u16_ok. lia. Qed.
+
+Theorem db3_accepts_iff o topics sch msgs :
+  db3_accepts o topics (Some sch) msgs = true <->
+  new_ok o = true /\
+  (forall t, In t topics -> (0 <= t_id t <= 65535)%Z) /\
+  (forall t, In t topics -> is_msg_topic t = true -> schema_of (t_type t) sch <> None) /\
+  N.of_nat (length (msg_topics topics)) <= 65535 /\
+  (forall m, In m msgs -> (0 <= mr_topic m <= 65535)%Z).
+Proof.
+  unfold db3_accepts, db3_wf. rewrite !andb_true_iff, !forallb_forall, N.leb_le. split.
+  - intros (H0 & ((H1 & H2) & H3) & H4). split; [exact H0|]. split; [|split; [|split]].
+    + intros t Ht. apply u16_ok_iff, H1, Ht.
+    + intros t Ht Hm. assert (Hin : In t (msg_topics topics)) by (apply filter_In; split; assumption).
+      specialize (H2 t Hin). unfold has_schema in H2. destruct (schema_of (t_type t) sch); congruence.
+    + exact H3.
+    + intros m Hm. apply u16_ok_iff, H4, Hm.
+  - intros (H0 & H1 & H2 & H3 & H4). split; [exact H0|]. split; [split; [split|]|].
+    + intros t Ht. apply u16_ok_iff, H1, Ht.
+    + intros t Ht. apply filter_In in Ht as [Ht Hm]. specialize (H2 t Ht Hm). unfold has_schema.
+      destruct (schema_of (t_type t) sch); congruence.
+    + exact H3.
+    + intros m Hm. apply u16_ok_iff, H4, Hm.
+Qed.
+
+Lemma db3_expected_calls_eq topics sch msgs :
+  db3_expected_calls topics sch msgs
+  = (CHeader ros2_header :: topics_calls sch 0 (msg_topics topics)
+     ++ map (fun x => CMessage (msg_of x)) (number_rows [] (kept_rows topics msgs))) ++ [CClose].
+Proof. unfold db3_expected_calls. rewrite db3_body_calls_eq. reflexivity. Qed.
+
+(* 65536 message topics *)
+Definition ex_many_topics : list topic_row :=
+  repeat {| t_id := 1; t_name := bs [47;97]; t_type := ex_type_a; t_fmt := ex_cdr; t_qos := None |} (N.to_nat 65536).
